@@ -32,6 +32,7 @@ type checkRun struct {
 	seed      int
 	noNative  bool
 	race      bool
+	nativeRace, nativeRaceAlways bool
 	raceSeen  map[string]string // package dir -> first DATA RACE report of the native run
 	crashed   map[string]string // package dir -> crash text when the native test process died (unrecoverable panic)
 }
@@ -228,6 +229,12 @@ func (r *checkRun) execute() int {
 	nativeErr := ""
 	if !r.noNative {
 		var err error
+		r.nativeRace = r.nativeRaceAlways
+		for _, c := range cands {
+			if c.v.Label == "data-race" {
+				r.nativeRace = true // confirmation needs the Go race detector
+			}
+		}
 		native, err = r.runNative(casesByDir)
 		if err != nil {
 			nativeErr = err.Error()
@@ -590,12 +597,12 @@ func (r *checkRun) runNative(casesByDir map[string][]vtCase) (map[string]vtResul
 		writeJSON(in, cases)
 		env := append(goEnv(), "VT_REPLAY="+in, "VT_OUT="+outF)
 		args := []string{"test", "-tags", "verif", "-vet=off", "-count=1", "-overlay", ovFile, "-run", "TestVTReplay$", "-timeout", "30m"}
-		if r.race {
+		if r.nativeRace {
 			args = append(args, "-race")
 		}
 		args = append(args, "./"+dir)
 		txt, err := runCmd(repoDir, env, 40*time.Minute, "go", args...)
-		if r.race {
+		if r.nativeRace {
 			if i := strings.Index(txt, "WARNING: DATA RACE"); i >= 0 {
 				if r.raceSeen == nil {
 					r.raceSeen = map[string]string{}
